@@ -6,4 +6,7 @@ open Proofs.C15 TunnelModel.Generated
   for a in blockingViolations accessTable do IO.println s!"BLOCKING-UNDER-LOOP-LOCK {showAccess a}"
   for a in loopSendViolations accessTable do IO.println s!"SEND-ON-RECEIVE-LOOP {showAccess a}"
   for a in lockedWaitViolations accessTable do IO.println s!"WAIT-WITH-LOCK-HELD {showAccess a}"
+  for r in splitSections lockSections do IO.println s!"SPLIT-CRITICAL-SECTION {r.1} accesses data protected by {r.2} in two separate critical sections (check-then-act)"
+  for r in writesUnderRLock lockSections do IO.println s!"WRITE-UNDER-READ-LOCK {r.1} writes {r.2.2.2.2.1}.{r.2.2.2.2.2.1} holding {r.2.1} in read mode"
+  for a in idOrderViolations accessTable do IO.println s!"ID-ORDER {showAccess a}"
   if !acyclic lockOrderEdges then IO.println s!"LOCK-ORDER-CYCLE {lockOrderEdges}"
